@@ -176,6 +176,28 @@ def encodeKV : List (Item × Item) → Bytes
   | (k, v) :: rest => encode k ++ encode v ++ encodeKV rest
 end
 
+/-! ### What the writer can write: the executable side of `Item.WF` (Tx3Proofs/Lemmas/CborRoundtrip) -/
+
+mutual
+def Item.wfb : Item → Bool
+  | .int v => decide (-(2 ^ 64 : Int) ≤ v) && decide (v < 2 ^ 64)
+  | .bytes b => decide (b.length < 2 ^ 64)
+  | .bytesIndef cs => cs.all fun c => decide (c.length < 2 ^ 64)
+  | .text b => decide (b.length < 2 ^ 64)
+  | .array xs => decide (xs.length < 2 ^ 64) && wfbL xs
+  | .arrayIndef xs => wfbL xs
+  | .map kvs => decide (kvs.length < 2 ^ 64) && wfbKV kvs
+  | .tag t x => decide (t < 2 ^ 64) && x.wfb
+  | .simple n => decide (n < 256)
+  | .float raw => raw.length == 2 || raw.length == 4 || raw.length == 8
+def wfbL : List Item → Bool
+  | [] => true
+  | x :: xs => x.wfb && wfbL xs
+def wfbKV : List (Item × Item) → Bool
+  | [] => true
+  | (k, v) :: r => k.wfb && v.wfb && wfbKV r
+end
+
 /-! ### Accessors used by the Conway reader -/
 
 def Item.asInt? : Item → Option Int
